@@ -1330,8 +1330,81 @@ def _replay(mk, rule, trace, cycle):
     return replay_stock(mk, tr, cyc, q)
 
 
+# ---------------------------------------------------------------------------------------------------------------
+# ClockDomainCrossing under domain NAMES that coincide with the FIFO's internal ones ("write" / "read"): each side must still end up
+# in its own domain.  Structural (elaboration only): the registers that `sink.ready` depends on belong to cd_from, those that
+# `source.valid` depends on to cd_to, and both domains carry logic.
+# ---------------------------------------------------------------------------------------------------------------
+CDC_NAMES = "ClockDomainCrossing(domain names a->b, a->write, write->b, a->read, read->b): each side clocked by its own domain"
+NAME_PAIRS = (("a", "b"), ("a", "write"), ("write", "b"), ("a", "read"), ("read", "b"))
+
+
+def run_cdc_names(name):
+    from litex.soc.interconnect import stream
+    from migen.fhdl.tools import list_signals as _ls, list_targets as _lt
+    from fsmc.design import Design
+    viol = []
+    n = 0
+    for cf, ct in NAME_PAIRS:
+        class W(Module):
+            def __init__(self):
+                self.clock_domains.cd_f = ClockDomain(cf)
+                self.clock_domains.cd_t = ClockDomain(ct)
+                self.submodules.cdc = stream.ClockDomainCrossing([("data", 2)], cf, ct)
+        w = W()
+        D = Design(w, clocks=(cf, ct))
+        n += 1
+        dom = {}
+        for cd, st in D.f.sync.items():
+            for t in _lt(st):
+                dom[t] = cd
+        comb = {}
+        def scan(stmts):
+            for st in stmts:
+                if isinstance(st, (list, tuple)):
+                    scan(st)
+                else:
+                    rd = _ls(st)
+                    for t in _lt(st):
+                        comb.setdefault(t, set()).update(rd)
+        scan(D.f.comb)
+        def reg_leaves(sig):
+            seen, todo, out = set(), [sig], set()
+            while todo:
+                x = todo.pop()
+                if x in seen:
+                    continue
+                seen.add(x)
+                if x in dom:
+                    out.add(x)
+                else:
+                    todo += list(comb.get(x, ()))
+            return out
+        side = {"sink.ready": (w.cdc.sink.ready, cf), "source.valid": (w.cdc.source.valid, ct)}
+        for lab, (sig, want) in side.items():
+            doms = sorted({dom[r] for r in reg_leaves(sig)})
+            if doms != [want]:
+                viol.append(dict(rule="struct.cdc_side_in_wrong_domain",
+                                 msg=f"ClockDomainCrossing({cf!r} -> {ct!r}): {lab} depends on registers of domain(s) {doms}, expected only {want!r}",
+                                 trace=None, detail=dict(cd_from=cf, cd_to=ct, port=lab, domains=doms)))
+    first = {}
+    for v in viol:
+        first.setdefault((v["detail"]["cd_from"], v["detail"]["cd_to"]), v)
+    return dict(cfg=name, states=n, transitions=n, conformed=0, exhaustive=True, violations=list(first.values()),
+                cover=dict(name_pairs=[f"{a}->{b}" for a, b in NAME_PAIRS]), sample=[dict(cd_from="a", cd_to="write")])
+
+
+_configs_cdc = configs
+
+
+def configs(tier):
+    return _configs_cdc(tier) + [(CDC_NAMES,)]
+
+
 def run_config(cfg, seed, tier):
     name = cfg[0]
+    if name == CDC_NAMES:
+        return run_cdc_names(name)
     mk = REGISTRY[name][1]
     H = mk()
     X = Explorer(H, seed=seed, max_viol_rules=2)
@@ -1363,6 +1436,10 @@ def run_config(cfg, seed, tier):
 
 
 def replay(rec):
+    if rec["cfg"] == CDC_NAMES:
+        r = run_cdc_names(rec["cfg"])
+        hit = [v for v in r["violations"] if v["detail"].get("cd_from") == rec.get("detail", {}).get("cd_from") and v["detail"].get("cd_to") == rec.get("detail", {}).get("cd_to")]
+        return dict(cfg=rec["cfg"], rule=rec["rule"], reproduced=bool(hit), path="elaboration")
     mk = REGISTRY[rec["cfg"]][1]
     if rec["rule"].startswith("struct."):
         H = mk()
